@@ -204,8 +204,11 @@ class XExprEvaluator(ModelVisitor):
             self.is_x = True
             self.val = None
         else:
-            self.is_x = False
-            field.accept(self)
+            # The value of the selected element (not of whichever
+            # element happens to be visited last)
+            s.rhs.accept(self)
+            if not self.is_x:
+                field.field_l[int(self.val)].accept(self)
             
     def visit_expr_in(self, e):
         e.lhs.accept(self)
